@@ -89,6 +89,110 @@ func instrumentYields(path string) []byte {
 	return buf.Bytes()
 }
 
+// instrumentClock returns the source with every time.Now() replaced by the
+// replay clock, or nil when the file does not read the clock.
+func instrumentClock(path string, src []byte) []byte {
+	fset := token.NewFileSet()
+	var f *ast.File
+	var err error
+	if src != nil {
+		f, err = parser.ParseFile(fset, path, src, parser.ParseComments)
+	} else {
+		f, err = parser.ParseFile(fset, path, nil, parser.ParseComments)
+	}
+	if err != nil {
+		return nil
+	}
+	timeName := ""
+	for _, im := range f.Imports {
+		if im.Path.Value == `"time"` {
+			timeName = "time"
+			if im.Name != nil {
+				timeName = im.Name.Name
+			}
+		}
+	}
+	if timeName == "" {
+		return nil
+	}
+	n := 0
+	ast.Inspect(f, func(nd ast.Node) bool {
+		if c, ok := nd.(*ast.CallExpr); ok {
+			if sel, ok := c.Fun.(*ast.SelectorExpr); ok && sel.Sel.Name == "Now" {
+				if id, ok := sel.X.(*ast.Ident); ok && id.Name == timeName && id.Obj == nil {
+					c.Fun = &ast.SelectorExpr{X: ast.NewIdent("vfclock"), Sel: ast.NewIdent("ReplayNow")}
+					n++
+				}
+			}
+		}
+		return true
+	})
+	if n == 0 {
+		return nil
+	}
+	astutil.AddNamedImport(fset, f, "vfclock", yieldImportPath)
+	if !astutil.UsesImport(f, "time") {
+		astutil.DeleteNamedImport(fset, f, "", "time")
+		astutil.DeleteNamedImport(fset, f, timeName, "time")
+	}
+	header := ""
+	text := string(src)
+	if src == nil {
+		text = readFileString(path)
+	}
+	for _, line := range strings.Split(text, "\n") {
+		if strings.HasPrefix(line, "package ") {
+			break
+		}
+		if strings.HasPrefix(line, "//go:build") || strings.HasPrefix(line, "// +build") {
+			header += line + "\n"
+		}
+	}
+	f.Comments = nil
+	var buf bytes.Buffer
+	if header != "" {
+		buf.WriteString(header + "\n")
+	}
+	if err := goprinter.Fprint(&buf, fset, f); err != nil {
+		return nil
+	}
+	return buf.Bytes()
+}
+
+// addClockOverlay replaces time.Now() in the given directories (files already
+// replaced by the overlay - yield-instrumented ones - are rewritten on top).
+func addClockOverlay(ov map[string]string, scratch string, dirs []string) int {
+	count := 0
+	for _, d := range dirs {
+		dir := filepath.Join(repoRoot, d)
+		ents, _ := os.ReadDir(dir)
+		for _, e := range ents {
+			name := e.Name()
+			if !strings.HasSuffix(name, ".go") || strings.HasSuffix(name, "_test.go") {
+				continue
+			}
+			virt := filepath.Join(dir, name)
+			var src []byte
+			if real, replaced := ov[virt]; replaced {
+				if strings.HasPrefix(name, "zz_vf") {
+					continue
+				}
+				src, _ = os.ReadFile(real)
+			}
+			out := instrumentClock(virt, src)
+			if out == nil {
+				continue
+			}
+			dst := filepath.Join(scratch, "clock_"+strings.ReplaceAll(filepath.Join(d, name), "/", "_"))
+			if os.WriteFile(dst, out, 0o644) == nil {
+				ov[virt] = dst
+				count++
+			}
+		}
+	}
+	return count
+}
+
 // addYieldOverlay instruments the non-test Go files of the given
 // repository-relative directories that the overlay does not already replace.
 func addYieldOverlay(ov map[string]string, scratch string, dirs []string) int {
